@@ -11,7 +11,11 @@ Spaces (DESIGN.md section 4, C17). Every space is enumerated completely inside t
                 lattice {rho form} x {dim form} x {keep_index form} x {dtype} (all single deviations from the default, all
                 pairs in the thorough tier for D <= 64) x atoms: generic operator and generic density matrix (D <= 64), product
                 operator (x)A_i (reference (x)_{keep}A_i * prod_{drop} Tr A_i), pure product state, sparse sum of 64 weighted
-                matrix units. Linearity residual, unit trace / hermiticity / positivity for states.
+                matrix units. Linearity residual, unit trace / hermiticity / positivity for states. keep_index forms: set,
+                frozenset, list, tuple, ndarray, int, and the other spellings of the same set: descending list [2,0], duplicates
+                (1,1,0), range objects, np.int64 scalar (single deviations). The result dtype equals the operator dtype.
+     boundary : A, B and C also run on the boundary of the quantifier: a single subsystem (d,), d = 1..4, and every list of length
+                2..3 with a one-dimensional subsystem ((1,3), (2,1,2), (1,1,1) ...); F and G on dimA = 1 (state shape (1,nDicke)).
   C  pt_hist  : mode H over the subset lattice. State = ordered history of subsystems traced out one at a time (all n!/(n-j)!
                 histories of every length j = 0..n, the last step reaching the empty keep-set); every step of the real function
                 is compared with the one-shot reference of the ORIGINAL operator, the one-shot implementation call and trace
@@ -34,7 +38,9 @@ Spaces (DESIGN.md section 4, C17). Every space is enumerated completely inside t
                 parallelogram and homogeneity residuals (sesquilinearity is the trusted base of F).
   G  consumers : the two anchored consumers of the Dicke index table, for every (dA,dB,k) of F (k >= 2 for the operators):
                 PureBosonicExt(dA,dB,k).forward(): dm_torch equals embed-then-trace of the vector its manifold returns (atoms
-                written into the parameters), trace 1;  get_ABk_gellmann_preimage_op(kind='boson')[i] equals P^dagger (G_i (x) 1) P
+                written into the parameters), trace 1, and for one generic Hermitian non-symmetric complex operator per (dA,dB,k)
+                the returned value equals Re Tr[op * embed-then-trace] (identity -> op -> identity history);
+                get_ABk_gellmann_preimage_op(kind='boson')[i] equals P^dagger (G_i (x) 1) P
                 with P the Dicke embedding (the reduction in the Heisenberg picture: <psi|op_i|psi> = Tr[G_i rho_AB(psi)] for all
                 psi), kind='symmetric' equals (1/k) sum_j G_i on (A,B_j) - ALL (dA dB)^2-1 Gell-Mann elements.
 Oracle: plain numpy. Partial trace = nested loops over the traced indices (mc.ref.partial_trace); on a matrix unit the
@@ -72,10 +78,16 @@ RULE = ('mode B: case = one dimension list (x a block of keep-subsets) or one (d
         'nested pairs T<=S. state = one (configuration, alphabet element) point or one history; transition = one numqi call whose '
         'complete output was compared with the explicit contraction; trace = one complete history / one element followed through '
         'all flavours with every step compared; non-trivial = the observed result is non-zero and at least one subsystem was '
-        'traced out while at least one was kept (pt), or the observed reduced matrix has more than one non-zero entry (Dicke)')
+        'traced out while at least one was kept (pt), or the observed reduced matrix has more than one non-zero entry (Dicke). '
+        'Boundary configurations run in both tiers: dimension lists of length 1 and lists with one-dimensional subsystems (product '
+        '<= 9) through the basis, atom and history kinds; dimA = 1 through the reduction kinds and PureBosonicExt. keep_index is '
+        'also given as a descending list, with duplicates, as a range object and as a numpy integer (single deviations from the '
+        'default options); the result dtype must equal the operator dtype; PureBosonicExt.forward is compared with Re Tr[op rho_AB] '
+        'for one generic Hermitian non-symmetric operator per (dimA,dimB,k) (non-trivial = distinguishable from the transposed operator)')
 ASSUMPTIONS = [
     'reference semantics: Tr_drop(X)[a_keep,b_keep] = sum_x X[(a_keep,x),(b_keep,x)], subsystem 0 = most significant factor, kept '
-    'subsystems in ascending order (keep_index is documented as a set)',
+    'subsystems in ascending order (keep_index is documented as a set: order and multiplicity of a list / tuple / range spelling '
+    'are ignored; a 0-d array is not iterable as a set and is outside the space)',
     'utils.partial_trace is C-linear (reshape + einsum) and partial_trace_ABk_to_AB is a sesquilinear form on the diagonal '
     '(products with constants, matmul, conj); both are spot-checked with generic residuals; given them, agreement on the basis / '
     'polarisation alphabet implies agreement on every input',
@@ -85,7 +97,9 @@ ASSUMPTIONS = [
     'the complete matrix-unit basis is run for D = prod(dim) up to the stated cap; larger dimension lists of the quantifier are '
     'covered by atoms only (the code does not branch on the values of the dimensions, only on length and keep pattern)',
     'the Gell-Mann matrices of the consumer check are taken from numqi.gellmann.all_gellmann_matrix (their correctness is property '
-    'C16); the vector of PureBosonicExt is read off its manifold (property C01)',
+    'C16); the vector of PureBosonicExt is read off its manifold (property C01); its expectation operator is Hermitian as documented; '
+    'get_ABk_gellmann_preimage_op asserts dimA >= 2, so dimA = 1 is explored for the reduction and PureBosonicExt only; dimB = 1 is '
+    'rejected by the precondition asserts of numqi.dicke and is outside the space',
     'torch inputs of utils.partial_trace, GPU tensors, autograd and batched states are outside the explored space; the torch '
     'index triples are cast to the precision of the state as a caller must do (torch matmul needs equal dtypes)',
 ]
@@ -263,6 +277,15 @@ def hist_lists(tier):
     return all_dim_lists([2, 3, 4, 5], [2, 3, 4])
 
 
+def boundary_lists():
+    """boundary of the quantifier (both tiers): a single subsystem (d,), d = 1..4, and every list of length 2..3 with entries
+    1..3 (length 2: 1..4) that contains a one-dimensional subsystem, e.g. (1,3), (2,1,2), (1,1,1); all products <= 9"""
+    ret = [(d,) for d in (1, 2, 3, 4)]
+    ret += [t for t in itertools.product((1, 2, 3, 4), repeat=2) if 1 in t]
+    ret += [t for t in itertools.product((1, 2, 3), repeat=3) if 1 in t]
+    return sorted(set(ret), key=lambda t: (prod(t), len(t), t))
+
+
 def dicke_kd(tier):
     """(k,d) of the Dicke basis / index table checks"""
     if tier == 'quick':
@@ -280,6 +303,8 @@ def reduce_triples(tier):
         ret = [(a, b, k) for a in (2, 3, 4) for b in (2, 3, 4) for k in range(1, 6) if a * b**k <= 512]
     else:
         ret = [(a, b, k) for a in (2, 3, 4, 5) for b in (2, 3, 4, 5) for k in range(1, 8) if a * b**k <= 8192 and b**k <= 4096]
+    # boundary dimA = 1 (state of shape (1, n_dicke): the reduction of a vector of Sym^k(B) alone), both tiers
+    ret += [(1, b, k) for b in (2, 3, 4) for k in range(1, 6)]
     return sorted(ret, key=lambda t: (t[0] * t[1]**t[2], t))
 
 
@@ -316,6 +341,8 @@ def build_cases(tier, seed):
     info['dicke_kd'] = [list(t) for t in kd]
     # ---- A: complete matrix-unit basis
     lists, cap = basis_lists(tier)
+    bl = boundary_lists()
+    lists = sorted(set(lists) | set(bl), key=lambda t: (prod(t), len(t), t))
     budget = 25000  # (unit, subset) points per case
     n_basis_states = 0
     for dims in lists:
@@ -331,14 +358,15 @@ def build_cases(tier, seed):
                         'alphabet': 'all D^2 weighted matrix units x all 2^n keep-subsets x {matrix,tensor} input shape'}
     # ---- B: atoms x option lattice on every list of the quantifier
     al = atom_lists(tier)
-    for dims in al:
+    for dims in bl + al:
         cases.append({'kind': 'pt_atoms', 'dims': list(dims)})
-    info['pt_atoms'] = {'lists': len(al), 'max_product': max(prod(t) for t in al),
+    info['boundary_lists'] = [list(t) for t in bl]  # run by pt_basis, pt_atoms and pt_hist in both tiers
+    info['pt_atoms'] = {'lists': len(al), 'boundary_lists': len(bl), 'max_product': max(prod(t) for t in al),
                         'complete_quantifier': len(al) == 9 + 27 + 81 + 243,
                         'option_deviation_bound': 1 if tier == 'quick' else 2}
     # ---- C: histories
     hl = hist_lists(tier)
-    for dims in hl:
+    for dims in bl + hl:
         cases.append({'kind': 'pt_hist', 'dims': list(dims)})
     info['pt_hist'] = {'lists': len(hl), 'depth': 'all histories of length 0..n (n = number of subsystems), all 3^n nested pairs'}
     # ---- F: reduction
@@ -525,7 +553,13 @@ def pt_atoms_for(env, dims, tag):
 
 OPT_DEFAULT = {'rho': 'matrix', 'dim': 'tuple', 'keep': 'set', 'dtype': 'c128'}
 OPT_ALPHABET = {'rho': ['matrix', 'tensor', 'fortran'], 'dim': ['tuple', 'list', 'ndarray'],
-                'keep': ['set', 'frozenset', 'list', 'tuple', 'ndarray', 'int'], 'dtype': ['c128', 'f64', 'c64', 'f32']}
+                'keep': ['set', 'frozenset', 'list', 'tuple', 'ndarray', 'int', 'list_desc', 'tuple_dup', 'range', 'np_int64'],
+                'dtype': ['c128', 'f64', 'c64', 'f32']}
+# keep_index forms that denote the same SET in another spelling (the function normalises with sorted(set(keep_index)) before
+# anything else): descending list [2,0], duplicates in non-ascending order (1,1,0), a range object, a numpy integer scalar.
+# They are explored as single deviations from the default in both tiers (no pairs: the pair lattice of the thorough tier is
+# built from the other values).
+OPT_SINGLE_ONLY = {'keep': ['list_desc', 'tuple_dup', 'range', 'np_int64']}
 
 
 def option_combos(bound):
@@ -534,7 +568,8 @@ def option_combos(bound):
     ret = [dict(OPT_DEFAULT)]
     for nd in range(1, bound + 1):
         for coords in itertools.combinations(names, nd):
-            for vals in itertools.product(*[OPT_ALPHABET[c][1:] for c in coords]):
+            alph = [[v for v in OPT_ALPHABET[c][1:] if nd == 1 or v not in OPT_SINGLE_ONLY.get(c, ())] for c in coords]
+            for vals in itertools.product(*alph):
                 o = dict(OPT_DEFAULT)
                 o.update(dict(zip(coords, vals)))
                 ret.append(o)
@@ -557,10 +592,23 @@ def make_pt_args(o, rho128, dims, keep):
         x = np.asfortranarray(x)
     d = {'tuple': tuple(dims), 'list': list(dims), 'ndarray': np.array(dims, dtype=np.int64)}[o['dim']]
     kf = o['keep']
-    if kf == 'int':
+    if kf in ('int', 'np_int64'):
         if len(keep) != 1:
             return None
-        kk = int(keep[0])
+        kk = int(keep[0]) if kf == 'int' else np.int64(keep[0])
+    elif kf == 'list_desc':  # [2,0]: the same set written in descending order
+        if len(keep) < 2:
+            return None
+        kk = list(keep[::-1])
+    elif kf == 'tuple_dup':  # (1,1,0): every index twice, descending
+        if len(keep) < 1:
+            return None
+        kk = tuple(i for i in keep[::-1] for _ in range(2))
+    elif kf == 'range':  # range object (contiguous keep-sets only; range(0) for the empty one, a step-2 range for {i,i+2,..})
+        if len(keep) >= 2 and len({b - a for a, b in zip(keep, keep[1:])}) != 1:
+            return None
+        kk = range(0) if not keep else range(keep[0], keep[-1] + 1, keep[1] - keep[0] if len(keep) >= 2 else 1)
+        assert list(kk) == list(keep)
     else:
         kk = {'set': set, 'frozenset': frozenset, 'list': list, 'tuple': tuple, 'ndarray': lambda z: np.array(z, dtype=np.int64)}[kf](keep)
     return x, d, kk, exact
@@ -572,7 +620,7 @@ def run_pt_atoms(case, out, env):
     n, D = len(dims), prod(dims)
     atoms = pt_atoms_for(env, dims, 'pt_atoms')
     if D > 256:
-        combos = [o for o in option_combos(1) if opt_label(o) in (None, 'rho=tensor', 'keep=list', 'dtype=c64', 'dim=list')]
+        combos = [o for o in option_combos(1) if opt_label(o) in (None, 'rho=tensor', 'keep=list', 'dtype=c64', 'dim=list', 'keep=list_desc', 'keep=tuple_dup')]
     elif env.tier == 'thorough' and D <= 64:
         combos = option_combos(2)
     else:
@@ -623,6 +671,10 @@ def run_pt_atoms(case, out, env):
                     continue
                 if not check_pt_output(out, got, dk, keep, detail, ol):
                     continue
+                # dtype-generic (reshape + einsum): the result has the dtype of the operator (no silent down-cast of complex128 /
+                # float64, no up-cast of the single-precision forms, real stays real)
+                if got.dtype != x.dtype:
+                    out.violation(okey('result_dtype', ol), 'partial_trace of a %s operator returned dtype %s' % (x.dtype, got.dtype), **detail())
                 err = float(np.abs(got.astype(np.complex128) - exp).max())
                 if not err <= tol:
                     out.violation(okey('not_explicit_contraction', ol),
@@ -1146,6 +1198,11 @@ def run_reduce_atoms(case, out, env):
 
 
 # ---------------------------------------------------------------------------------------------- anchored consumers
+def alt_of(op, rho):
+    """Re Tr[op^T rho]: what a transposed / conjugated operator would give (non-trivial run = distinguishable from it)"""
+    return float(np.trace(op.T @ rho).real)
+
+
 def run_consumers(case, out, env):
     import numqi
     import torch
@@ -1164,6 +1221,10 @@ def run_consumers(case, out, env):
     try:
         model = numqi.entangle.PureBosonicExt(dA, dB, k)
         model.set_expectation_op(np.eye(dA * dB))
+        # one generic Hermitian, NON-symmetric complex operator per (dA,dB,k): forward() returns Re Tr[op rho_AB] (for the identity
+        # a transposed or conjugated operator is invisible)
+        hop = rng.normal(size=(dA * dB, dA * dB)) + 1j * rng.normal(size=(dA * dB, dA * dB))
+        hop = (hop + hop.conj().T) / 2
     except Exception as e:  # noqa
         out.violation('consumer/PureBosonicExt/%s' % type(e).__name__, 'PureBosonicExt(%d,%d,%d) raised %r' % (dA, dB, k, e), **base)
         model = None
@@ -1196,8 +1257,43 @@ def run_consumers(case, out, env):
                 out.violation('consumer/PureBosonicExt/forward/not_unit_trace', 'Tr(rho_AB * 1) = %r' % loss, theta=theta, **base)
             out.outcome((dA, dB, k, 'pureb', dm), nontrivial=int(np.count_nonzero(np.abs(dm) > 1e-12)) > 1)
             out.trace()
+            # the same parameters with the generic Hermitian operator, then back to the identity (set_expectation_op history)
+            out.state()
+            out.trans()
+            try:
+                model.set_expectation_op(hop)
+                with torch.no_grad():
+                    loss_h = float(model())
+                dm_h = to_np(model.dm_torch)
+                model.set_expectation_op(np.eye(dA * dB))
+                with torch.no_grad():
+                    loss_1 = float(model())
+            except Exception as e:  # noqa
+                out.violation('consumer/PureBosonicExt/forward/%s/expectation_op=hermitian' % type(e).__name__, 'forward() raised %r' % (e,), theta=theta, op=hop, **base)
+                break
+            # every entry of rho_AB is within tol of the reference (checked above for the identity run; re-checked for this run), so
+            # |Tr[op rho] - Tr[op ref]| <= tol * sum|op_ij|; the dot product itself sums (dA dB)^2 products |op_ij| |rho_ji| <= max|op| * |psi|^2
+            exp_h = float(np.trace(hop @ exp).real)
+            tol_h = tol * float(np.abs(hop).sum()) + C_SAFETY * EPS['c128'] * (dA * dB)**2 * float(np.abs(hop).max()) * max(1.0, norm2)
+            if not err <= tol:
+                out.count('consumer_op_not_compared_after_wrong_dm')  # reported once, by the identity run
+            elif dm_h.shape != dm.shape or not float(np.abs(dm_h - exp).max()) <= tol:
+                out.violation('consumer/PureBosonicExt/forward/not_embed_then_trace/expectation_op=hermitian', 'dm_torch after set_expectation_op(H) '
+                              'differs from embed-then-trace of the manifold vector', theta=theta, vector=vec, op=hop, observed=dm_h, expected=exp, **base)
+            elif not abs(loss_h - exp_h) <= tol_h:
+                # which wrong quantity it is (smallest description): transpose / conjugate of the operator
+                alt = float(np.trace(hop.T @ exp).real)
+                out.violation('consumer/PureBosonicExt/forward/not_expectation_value', 'forward() = %r for a generic Hermitian non-symmetric op, Re Tr[op rho_AB] '
+                              '= %r (tol %.3g; Re Tr[op^T rho_AB] = %r)' % (loss_h, exp_h, tol_h, alt), theta=theta, vector=vec, op=hop, expected_rho=exp, **base)
+            elif abs(loss_1 - loss) > 2 * (tol * dA * dB + 64 * EPS['c128']):
+                out.violation('consumer/PureBosonicExt/forward/not_expectation_value/op_history', 'identity -> H -> identity: Tr(rho_AB * 1) changed from '
+                              '%r to %r' % (loss, loss_1), theta=theta, op=hop, **base)
+            out.outcome((dA, dB, k, 'pureb_h', round(loss_h, 9)), nontrivial=abs(loss_h - alt_of(hop, exp)) > 1e-9)
+            out.trace()
     # ---- preimage operators
-    if k >= 2:
+    if k >= 2 and dA < 2:
+        out.count('rejected_by_precondition')  # get_ABk_gellmann_preimage_op asserts dimA >= 2
+    if k >= 2 and dA >= 2:
         N0 = (dA * dB)**2 - 1
         G = numqi.gellmann.all_gellmann_matrix(dA * dB, with_I=False)
         P = np.zeros((dA, dB**k, dA, nD))
